@@ -11,6 +11,7 @@ Mode E (the property as stated, on the implementation only; see c16_modee.py)
 """
 import io
 import json
+import math
 import sys
 import time
 from fractions import Fraction
@@ -551,8 +552,14 @@ def ents_equal(a, b):
     return True
 
 
+def _fr_or_bad(v):
+    """exact rational of a float; a NaN / infinite factor (never a legitimate calibration factor) becomes a value no model reply can equal"""
+    v = float(v)
+    return Fraction(*v.as_integer_ratio()) if math.isfinite(v) else Fraction(-987654321, 7)
+
+
 def fr_ents(ents):
-    return [(a, b, Fraction(*float(c).as_integer_ratio()), [(k, Fraction(*float(v).as_integer_ratio())) for k, v in d]) for a, b, c, d in ents]
+    return [(a, b, _fr_or_bad(c), [(k, _fr_or_bad(v)) for k, v in d]) for a, b, c, d in ents]
 
 
 def run_yfac(ctx):
